@@ -208,6 +208,15 @@ JudgeDecapQ(e, rx, q, crc) ==
         \cup V(strayOk, <<"C07">>, "Rx.OtherContextsUntouched")
         \cup V(post.ok => Conserved(post, rx.prov, owned2), <<"C08">>, "Rx.Conservation")
         \cup V(np => GiveBackOk(e.memops, outTag), <<"C08">>, "Rx.GiveBack")
+        \* interleavings (driver claims: all fragments of PDU e.of were fed in order on a separately tracked id)
+        \cup V(Has(e, "of") /\ wf /\ kind = "end" /\ g.open /\ A = PduBytes(e.of) =>
+                  (r.t = "completed" /\ r.pdu = PduBytes(e.of)), <<"C07">>, "Rx.InterleavedDelivered")
+        \* frames: same outcome as the same packet decapsulated alone by a twin receiver
+        \cup V(Has(e, "alone") /\ np /\ e.alone.t # "panic" =>
+                  /\ r.t = e.alone.t /\ cons = e.alone.consumed
+                  /\ (r.t = "err" => r.e = e.alone.e)
+                  /\ (hasMeta => r.meta = e.alone.meta)
+                  /\ (r.t = "completed" => r.pdu = e.alone.pdu), <<"C10">>, "Rx.TailIndependent")
         \* lock-step attribution and round trip
         \cup V(isPend /\ hasMeta /\ rx.pend.kind \in {"complete", "first"} => r.meta.label = rx.pend.intended, <<"C04">>, "Rx.Attribution")
         \cup V(isPend /\ hasMeta /\ rx.pend.kind \in {"inter", "end"} => r.meta.label = sess.intended, <<"C04">>, "Rx.Attribution.frag")
@@ -245,6 +254,9 @@ JudgeDecapQ(e, rx, q, crc) ==
          \cup H(isPend /\ r.t = "completed" /\ rx.pend.kind = "complete", "Rx.RoundTrip.complete")
          \cup H(isPend /\ r.t = "completed" /\ rx.pend.kind = "end", "Rx.RoundTrip.fragmented")
          \cup H(probe, "Rx.Probe")
+         \cup H(Has(e, "of") /\ wf /\ kind = "end" /\ g.open /\ A = PduBytes(e.of), "Rx.InterleavedDelivered")
+         \cup H(Has(e, "of") /\ ~(wf /\ kind = "end" /\ g.open /\ A = PduBytes(e.of)), "Rx.InterleaveClaimNotMet")
+         \cup H(Has(e, "alone") /\ np /\ e.alone.t # "panic" /\ N > pl /\ delim, "Rx.TailIndependent")
       \* ------------------------------------------------------ state update
       adm2 ==
         IF isStart /\ hasMeta THEN
@@ -320,12 +332,26 @@ JudgeDrain(e, rx) ==
     hits |-> H(e.mem.ok /\ rx.prov # {}, "Drain.Conservation"),
     rx |-> rx, cls |-> <<"drain">> ]
 
+\* ----------------------------------------------------------- decap family
+\* All 3-byte strings <<b0, b1, b2>> for (b1, b2) in a lexicographic range gave
+\* the same observation (C05): judged once for the whole run.
+JudgeFamily(e, rx) ==
+  [ bad |-> V(e.t # "panic", <<"C05">>, "Family.NoPanic")
+         \cup V(~e.peek_panic, <<"C05">>, "Family.PeekNoPanic")
+         \cup V(e.t # "panic" => (e.consumed <= 3 /\ e.consumed >= 2), <<"C05">>, "Family.ConsumedBounds")
+         \cup V(e.b0 = 0 /\ e.from = <<0, 0>> /\ e.t # "panic" => (e.t = "padding" /\ e.consumed = 3), <<"C10">>, "Family.ZeroIsPadding")
+         \cup V(e.t = "padding" => e.b0 < 16, <<"C10", "C14">>, "Family.PaddingOnlyForPaddingHeader"),
+    hits |-> H(TRUE, "Family.NoPanic") \cup H(TRUE, "Family.PeekNoPanic") \cup H(e.t # "panic", "Family.ConsumedBounds")
+         \cup H(e.b0 = 0 /\ e.from = <<0, 0>>, "Family.ZeroIsPadding") \cup H(e.t = "padding", "Family.PaddingOnlyForPaddingHeader"),
+    rx |-> rx, cls |-> <<"family", e.b0 \div 16, e.t, e.consumed, e.mem_same>>, weight |-> e.n ]
+
 \* --------------------------------------------------------------- dispatch
 RxStep(e, rx, tx, crc) ==
   CASE e.ev = "decap"     -> JudgeDecap(e, rx, crc)
     [] e.ev = "peek"      -> JudgePeek(e, rx)
     [] e.ev = "provision" -> JudgeProvision(e, rx)
     [] e.ev = "drain"     -> JudgeDrain(e, rx)
+    [] e.ev = "decap_family" -> JudgeFamily(e, rx)
     [] e.ev = "rx_reset"  -> [bad |-> {}, hits |-> {}, cls |-> <<"rx_reset">>, rx |-> [rx EXCEPT !.adm = {NoLabel}]]
     [] OTHER              -> [bad |-> {}, hits |-> {}, cls |-> <<"other", e.ev>>, rx |-> rx]
 =============================================================================
